@@ -275,12 +275,20 @@ def run(ctx, rep):
     # ---- R5 ------------------------------------------------------------------------------------------
     w = prog.fn('libcnb_common::toml_file::write_toml_file')
     rep.analysed(w)
-    fw = [c for c in w.calls if c.is_('std::fs::write')]
-    ok = len(fw) == 1
+    # one file WRITE on every success path, at the path parameter, of toml::to_string(value)? — whether spelled
+    # fs::write(path, s) or File::create(path)?.write_all(s.as_bytes()), directly or in a private helper
+    from .lib.effects import Effects
+    E5 = Effects(prog, sl)
+    fw = [e for e in E5.expand(w, 'must') if e.kind == 'WRITE']
+    ok = len(fw) == 1 and len(fw[0].args or ()) >= 2
     if ok:
-        dv = sl.operand(w, fw[0].args[1])
+        e = fw[0]
+        dv = e.args[1]
+        while dv[0] == 'call' and dv[1].endswith(('::as_bytes', '::as_str', '::as_ref')) and dv[2]:
+            dv = dv[2][0]
+        top = e.chain[0] if e.chain else e.call
         ok = dv[0] == 'unwrap' and strip(dv)[0] == 'call' and strip(dv)[1] == 'toml::to_string' and strip(strip(dv)[2][0])[0] == 'param' \
-            and strip(sl.operand(w, fw[0].args[0]))[0] == 'param' and verdict(result_fates(prog, w, fw[0])) == 'ok'
+            and strip(e.path)[0] == 'param' and strip(e.path)[2] == 1 and verdict(result_fates(prog, top.fn, top.call if hasattr(top, 'call') else top)) == 'ok'
     rep.check(ok, 'R5', 'write_toml_file', '%s:%d' % (w.file, w.line), 'fs::write(path, toml::to_string(value)?)?', 'write_toml_file is not to_string + write with both errors propagated')
     # all TOML text produced in libcnb / libcnb_common comes from write_toml_file (or the exec.d writer)
     users = sorted({c.fn.path for f in prog.fns.values() if f.crate in ('libcnb', 'libcnb_common') and not f.path.startswith('libcnb::tracing')
